@@ -218,6 +218,10 @@ func (e *tieEnc) schange(c schema.Change) {
 // txTok: how the plan is run -- 0: on the connection (--tx-mode none), 1: through client.Tx = sqlite.OpenTx
 // (--tx-mode file), 2: inside a plain sql.Tx.  fk is the connection's own setting (_fk); what OpenTx does
 // with it is the model's business (RowsModel.schema_apply).
+// wantFKLine: the api/exhaust stages also compare the connection's foreign_keys setting after a
+// successful run (the cli stage reads the database through another connection).
+var wantFKLine = true
+
 func txTok(tx string) int {
 	switch tx {
 	case "file":
@@ -231,7 +235,11 @@ func txTok(tx string) int {
 func tieCase(ctx context.Context, before *Dump, cur *schema.Schema, changes []schema.Change, fk bool, tx string, k int) (string, string) {
 	e := &tieEnc{ctx: ctx}
 	// k >= 0: only the first k statements of the plan are executed
-	e.add(b01(fk), fmt.Sprint(txTok(tx)), fmt.Sprint(k), fmt.Sprint(len(before.Names)))
+	showFK := "0"
+	if (tx == "none" || tx == "file") && wantFKLine {
+		showFK = "1"
+	}
+	e.add(b01(fk), fmt.Sprint(txTok(tx)), fmt.Sprint(k), showFK, fmt.Sprint(len(before.Names)))
 	// tables in creation order would need sqlite_master.rowid; the model does not depend on the order
 	for _, n := range before.Names {
 		t := before.Tables[n]
